@@ -179,7 +179,17 @@ func (n *lazyNode) tryAry() bool {
 	return true
 }
 
+// isNull reports a JSON null: a nil node (decoded from a document) or a node
+// without raw bytes (a null supplied as a patch value).
+func (n *lazyNode) isNull() bool {
+	return n == nil || (n.which == eRaw && n.raw == nil)
+}
+
 func (n *lazyNode) equal(o *lazyNode) bool {
+	if n.isNull() || o.isNull() {
+		return n.isNull() && o.isNull()
+	}
+
 	if n.which == eRaw {
 		if !n.tryDoc() && !n.tryAry() {
 			if o.which != eRaw {
@@ -210,6 +220,10 @@ func (n *lazyNode) equal(o *lazyNode) bool {
 
 			if !ok {
 				return false
+			}
+
+			if v.isNull() && ov.isNull() {
+				continue
 			}
 
 			if (v == nil) != (ov == nil) {
